@@ -11,7 +11,7 @@ CONSTANTS
   MaxRagged = 0
   MaxRaggedInt = 0
   MaxExtends = 0
-  Horizons <- MC_Horizon1
+  Horizons <- MC_Horizons_edit
   FormatSeq <- MC_EditFormats
 INVARIANT TypeOK
 INVARIANT C19_Header
